@@ -56,6 +56,11 @@ def op_meta(rec, keys, p, i, fail=0):
     return d
 
 
+def op_metamut(rec, keys, mkey, p, i):
+    """d = {..}; add_metadata(d); d[mkey] = value   (F12 probe stream only)"""
+    return dict(rec=rec, k="metamut", items=[[k, _val(p, i, j)] for j, k in enumerate(keys)], mkey=mkey, mval=_val(p, i, 9))
+
+
 def op_save(rec, fail=0):
     d = dict(rec=rec, k="save")
     if fail:
@@ -176,6 +181,8 @@ W_TWO3 = [[op_set(0, 0, 0, 0), op_save(0)], [op_set(1, 0, 1, 0)]]               
 W_SHARE = [[op_set(0, 0, 0, 0), op_save(0)], [op_set(0, 0, 1, 0)]]                       # write racing with the save
 W_TWO4 = [[op_set(0, 0, 0, 0), op_save(0)], [op_set(1, 0, 1, 0), op_save(1)]]
 W_THREE = [[op_set(0, 1, 0, 0), op_save(0)], [op_meta(1, [0, 1], 1, 0), op_save(1)], [op_set(0, 1, 2, 0), op_set(1, 1, 2, 1)]]
+W_ALIAS1 = [[op_metamut(0, [0], 1, 0, 0), op_save(0)]]                                    # F12: dict changed after the request
+W_ALIAS2 = [[op_set(0, 0, 0, 0), op_metamut(0, [0, 1], 1, 0, 1), op_save(0)], [op_metamut(1, [2], 0, 1, 0), op_save(1)]]
 W_RESET = [[op_set(0, 0, 0, 0), op_set(0, 0, 0, 1), op_set(0, 1, 0, 2), op_save(0)]]    # same key twice in one recording
 
 
@@ -185,30 +192,35 @@ def generate(rng, tier):
     # 1. exhaustive token schedules (producer requests atomic) on small workloads, a failing call at every position
     for work, fmax, cpl in ([(W_TINY2, 7, range(0, 8)), (W_TWO3, 5, (0, 2, 4)), (W_ONE3, 5, (0, 1, 3)),
                              (W_SHARE, 4, (0, 3))] if quick else
-                            [(W_TINY2, 9, range(0, 10)), (W_TWO3, 7, (0, 1, 2, 4, 6)), (W_ONE3, 7, (0, 1, 3, 5)),
-                             (W_SHARE, 6, (0, 1, 3, 5)), (W_TWO4, 4, (0, 3))]):
+                            [(W_TINY2, 9, range(0, 10)), (W_TWO3, 7, (0, 2, 4, 6)), (W_ONE3, 7, (0, 1, 3, 5)),
+                             (W_SHARE, 6, (0, 1, 3, 5)), (W_TWO4, 3, (0, 3))]):
         variants = [work] + [with_fail_at(work, j, 1 + j % 4) for j in range(nops(work))]
         for vi, wv in enumerate(variants):
             for k, toks in enumerate(token_schedules(wv, fmax, cpl)):
                 # failing variants: every third schedule (the positions are what is exhaustive there)
-                if vi and (k + vi) % (5 if quick else 2):
+                if vi and (k + vi) % (5 if quick else 3):
                     continue
                 light.append(mk(wv, dict(kind="tokens", tokens=toks), "exhaustive-tokens"))
     # 2. random token schedules on random larger workloads
     for _ in range(400 if quick else 4000):
         w = rand_work(rng, rng.randrange(1, 4), 6, rng.randrange(1, 4))
         light.append(mk(w, dict(kind="tokens", tokens=rand_tokens(rng, w)), "random-tokens"))
+    # 2b. probe stream for known finding F12 (argument captured by reference): token schedules only
+    for w, fmax, cpl in [(W_ALIAS1, 4, (0, 2)), (W_ALIAS2, 1, (0,))]:
+        for k, toks in enumerate(token_schedules(w, fmax, cpl)):
+            if k % (2 if quick else 1) == 0:
+                light.append(mk(w, dict(kind="tokens", tokens=toks), "probe-F12"))
     # 3. bounded-preemption exhaustive exploration by the driver
     for w in [W_TWO3, W_SHARE, W_THREE, W_RESET, with_fail_at(W_TWO4, 1), with_fail_at(W_ONE3, 0), with_fail_at(W_THREE, 3)]:
-        heavy.append(mk(w, dict(kind="explore", gran="atomic", budget=1, max_runs=1200 if quick else 20000), "explore-atomic"))
+        heavy.append(mk(w, dict(kind="explore", gran="atomic", budget=1, max_runs=1200 if quick else 10000), "explore-atomic"))
     for w in [W_TINY2, W_SHARE, with_fail_at(W_ONE3, 1)] + ([] if quick else [W_TWO3, W_TWO4, W_THREE, W_RESET]):
-        heavy.append(mk(w, dict(kind="explore", gran="line", budget=1, max_runs=2000 if quick else 20000), "explore-line"))
+        heavy.append(mk(w, dict(kind="explore", gran="line", budget=1, max_runs=2000 if quick else 10000), "explore-line"))
     if not quick:
         for w in [W_TINY2, W_SHARE, W_TWO3]:
-            heavy.append(mk(w, dict(kind="explore", gran="atomic", budget=2, max_runs=15000), "explore-atomic"))
-        heavy.append(mk(W_TINY2, dict(kind="explore", gran="line", budget=2, max_runs=15000), "explore-line"))
+            heavy.append(mk(w, dict(kind="explore", gran="atomic", budget=2, max_runs=12000), "explore-atomic"))
+        heavy.append(mk(W_TINY2, dict(kind="explore", gran="line", budget=2, max_runs=12000), "explore-line"))
         for w in [W_TINY2, W_SHARE, W_ONE3]:
-            heavy.append(mk(w, dict(kind="explore", gran="opcode", budget=1, max_runs=15000), "explore-opcode"))
+            heavy.append(mk(w, dict(kind="explore", gran="opcode", budget=1, max_runs=10000), "explore-opcode"))
     # 4. seeded random walks (random preemption at every yield point) on random workloads
     for j in range(16 if quick else 160):
         w = rand_work(rng, rng.randrange(1, 4), 5, rng.randrange(1, 4))
@@ -245,6 +257,8 @@ def g_op(i, op):
         kind = "(SetData %s %s)" % (gN(op["key"]), gN(op["val"]))
     elif op["k"] == "meta":
         kind = "(AddMeta %s)" % g_dict(op["items"])
+    elif op["k"] == "metamut":
+        kind = "(AddMetaMut %s %s %s)" % (g_dict(op["items"]), gN(op["mkey"]), gN(op["mval"]))
     else:
         kind = "Save"
     return "(Op %s %s %s %s)" % (gnat(i), gnat(op["rec"]), kind, gbool(bool(op.get("fail"))))
@@ -376,7 +390,13 @@ def run_failures(case, r):
         add("reordered-across-producers", "request %s returned before %s began, but was applied after it" % bad[0])
     # contents against the synchronous twin
     tw = r["twin"]
-    if r["saved"] != tw["saved"]:
+    late = r.get("twin_late")
+    if late is not None and (r["saved"], r["live"]) != (tw["saved"], tw["live"]) and \
+            (r["saved"], r["live"]) == (late["saved"], late["live"]):
+        # known finding: exactly the difference explained by "the dict is read when the flusher runs the operation"
+        add("F12-argument-alias", "items added to a dict after add_metadata(dict) returned were stored: %s, synchronous "
+            "twin %s" % (r["saved"] or r["live"], tw["saved"] or tw["live"]))
+    elif r["saved"] != tw["saved"]:
         add("stored-recordings-differ", "wrapped cassette after close %s != synchronous twin %s (requests in order %s)" %
             (r["saved"], tw["saved"], r["twin_order"]))
     elif r["live"] != tw["live"]:
@@ -460,18 +480,20 @@ def shrink_candidates(case):
 
 
 def search_harder(rng, bad_cases):
+    """Called when the model/implementation correspondence (or the lock gate) breaks although no schedule of the
+    main stream failed: preemption between bytecodes of the module under test, two preemptions between lines,
+    more random walks.  (Chunks of 8 = one heavy exploration + 7 random walks per driver process.)"""
+    heavy = [mk(W_TINY2, dict(kind="explore", gran="opcode", budget=1, max_runs=8000), "explore-opcode"),
+             mk(W_SHARE, dict(kind="explore", gran="opcode", budget=1, max_runs=8000), "explore-opcode"),
+             mk(W_TINY2, dict(kind="explore", gran="line", budget=2, max_runs=6000), "explore-line"),
+             mk(W_ONE3, dict(kind="explore", gran="opcode", budget=1, max_runs=8000), "explore-opcode")]
     extra = []
-    for w in [W_TINY2, W_SHARE]:
-        extra.append(mk(w, dict(kind="explore", gran="opcode", budget=1, max_runs=8000), "explore-opcode"))
-    for w in [W_TINY2, W_SHARE, W_TWO3, W_RESET]:
-        extra.append(mk(w, dict(kind="explore", gran="line", budget=2, max_runs=6000), "explore-line"))
-    for j in range(24):
-        w = rand_work(rng, rng.randrange(1, 4), 6, rng.randrange(1, 4))
-        extra.append(mk(w, dict(kind="random", gran="line" if j % 2 else "atomic", seed=rng.randrange(10**6), runs=200,
-                                p=rng.choice([0.05, 0.15, 0.3])), "random"))
-    for c in bad_cases[:6]:
-        if c.get("work"):
-            extra.append(mk(c["work"], dict(kind="explore", gran="line", budget=1, max_runs=4000), "explore-line"))
+    for h in heavy:
+        extra.append(h)
+        for j in range(7):
+            w = rand_work(rng, rng.randrange(1, 4), 6, rng.randrange(1, 4))
+            extra.append(mk(w, dict(kind="random", gran=["atomic", "line", "opcode"][j % 3], seed=rng.randrange(10**6),
+                                    runs=150, p=rng.choice([0.05, 0.15, 0.3])), "random"))
     return extra
 
 
@@ -494,6 +516,8 @@ def features(case):
     f.add("recordings=%d" % case["nrec"])
     kinds = {op["k"] for ops in w for op in ops}
     f |= {"op:" + k for k in kinds}
+    if "metamut" in kinds:
+        f.add("probe:F12-caller-changes-dict-after-add_metadata")
     if any(op.get("fail") for ops in w for op in ops):
         f.add("failing-storage-call")
     recs = [set(op["rec"] for op in ops) for ops in w]
